@@ -65,9 +65,84 @@ def nontrivial_box(case):
     return False
 
 
+def model_cases(tier):
+    """Shipped models over a range of sizes (construction runs compiled helper routines of the models, the first solution
+    runs every propagator on the shapes the models produce)."""
+    big = tier != "quick"
+    cs = []
+
+    def add(model, args, first=True):
+        cs.append({"kind": "model", "model": model, "args": args, "first": first})
+
+    for n in range(1, 13):
+        add("queens", [n])
+    for n in (20, 50) + ((100, 200) if big else ()):
+        add("queens", [n], first=False)
+    for n in range(1, 6):
+        add("latin_square", [n])
+        add("latin_square_rc", [n])
+    for n in range(3, 10):
+        for sym in (True, False):
+            add("qg5", [n, sym], first=n <= 5 or (n <= 8 and sym and not nx.INTERPRETED))
+    for sym in (True, False):
+        add("magic_square", [3, sym])
+        add("magic_square", [4, sym], first=not nx.INTERPRETED)
+        add("magic_square", [5, sym], first=False)
+    for n in list(range(1, 16)) + [30, 50] + ([100, 200] if big else []):
+        add("magic_sequence", [n], first=n <= 30 or not nx.INTERPRETED)
+    for n in range(2, 21):
+        for sym in (True, False):
+            add("golomb", [n, sym], first=n <= 6 or (n <= 8 and not nx.INTERPRETED))
+    for a in ([3, 3, 2, 2, 1], [4, 6, 3, 2, 1], [4, 4, 3, 3, 2], [7, 7, 3, 3, 1], [6, 10, 5, 3, 2], [8, 14, 7, 4, 3]):
+        for sym in (True, False):
+            add("bibd", a + [sym], first=a[0] <= 4 or (sym and not nx.INTERPRETED))
+    for n in range(1, 21):
+        for sym in (True, False):
+            add("schur", [n, sym], first=n <= 8 or (n <= 13 and not nx.INTERPRETED))
+    for n in (2, 4, 6, 8) + ((10,) if big else ()):
+        for sym in (True, False):
+            add("sts", [n, sym], first=n <= 4 or (n <= 6 and not nx.INTERPRETED))
+    add("knapsack", [[3, 4, 5, 2], [2, 3, 4, 1], 6])
+    add("knapsack", [[40, 40, 38, 38, 36, 36, 34, 34, 32, 32, 30, 30], [40, 40, 38, 38, 36, 36, 34, 34, 32, 32, 30, 30], 75])
+    for n in range(2, 12):
+        add("circuit", [n])
+    add("tsp", [[[0, 2, 1, 2], [2, 0, 2, 1], [1, 2, 0, 2], [2, 1, 2, 0]]])
+    add("tsp", [[[0, 5, 1, 7, 3], [2, 0, 4, 1, 9], [8, 2, 0, 2, 6], [3, 9, 2, 0, 1], [1, 1, 5, 4, 0]]])
+    add("sudoku", [0])
+    add("sudoku", [1])
+    add("alpha", [], first=not nx.INTERPRETED)
+    add("donald", [], first=not nx.INTERPRETED)
+    return cs
+
+
+def check_model(case):
+    from vlib.props import c20
+
+    model, args = case["model"], case["args"]
+    tags = ["model:" + model, "first-solution" if case["first"] else "construction-only"]
+    where = "%s%s" % (model, args if model != "tsp" else "(%d cities)" % len(args[0]))
+    for cons in ("bc",) + (("golomb",) if model == "golomb" and case["first"] else ()):
+        try:
+            pb = engine(c20.build, model, args)
+            solver = engine(c20.make_solver, pb, model, args, {"cons": cons, "var": "first", "dom": "min"})
+            if case["first"]:
+                engine(lambda: next(solver.solve(), None))
+        except EngineError as e:
+            if _is_index_error(e.bucket):
+                return Verdict(False, "%s: %s raised %s" % (where, "building the model / its first solution", e.bucket), True, tags)
+            tags.append("other-exception:" + e.bucket.split("@")[0])
+        if BOUNDSCHECK:
+            err = _capture_new()
+            if "IndexError" in err or "out of bounds" in err:
+                return Verdict(False, "%s: bounds-checked engine reports %s" % (where, err.strip().splitlines()[-1][:200]), True, tags)
+    return Verdict(True, "", True, tags)
+
+
 def check(case):
     if BOUNDSCHECK:
         _capture_start()
+    if case["kind"] == "model":
+        return check_model(case)
     if case["kind"] == "box":
         assert in_contract(case["type"], case["params"], case["box"]), case
         tags = ["box:" + case["type"], "n:%d" % min(len(case["box"]), 12)]
@@ -195,7 +270,7 @@ def solve_case(draw, tier):
 META = {
     "level": "exploration",
     "rule": "cases = (a) single filtering calls on boxes that stress scratch arrays and index clamping (alldifferent/gcc with up to 12-16 variables and many equal / nested / point bounds, element_* with index domains straddling "
-    "the list ends, no_sub_cycle/scc on [0,n-1], relation with many tuples) and (b) real searches on generated problems with cost tables exactly as wide as the domains; oracle = no IndexError/OverflowError from a nucs frame under "
+    "the list ends, no_sub_cycle/scc on [0,n-1], relation with many tuples) (b) real searches on generated problems with cost tables exactly as wide as the domains, and (c) every shipped model built over a range of instance sizes (Golomb 2-20 marks, queens up to 50-200, magic sequence up to 50-200, Schur 1-20, quasigroups 3-9, BIBD, tournaments, circuits 2-11, ...) and asked for its first solution where that takes seconds; oracle = no IndexError/OverflowError from a nucs frame under "
     "interpretation, no bounds violation reported by the engine compiled with NUMBA_BOUNDSCHECK=1 (stderr captured per case), no negative domain index returned by a variable heuristic; "
     "non-trivial = a case exercising a scratch-array / index path (>= 3 variables in a Hall-interval or graph propagator, index domain partly outside the list, >= 3 tuples, cost heuristics); distinct by SHA-1 of the canonical case",
     "assumptions": ["a negative index wraps silently in NumPy and Numba: it is visible only through its consequences (heuristic result -1, wrong answers in C01/C02)"],
@@ -210,6 +285,9 @@ def jobs(tier):
         {"name": "solve-I", "mode": "I", "shards": 6},
         {"name": "box-B", "mode": "B", "shards": 2},
         {"name": "solve-B", "mode": "B", "shards": 2},
+        # the running time of a shipped model depends on the instance: a time-out is "inconclusive", never a violation
+        {"name": "models-I", "mode": "I", "shards": 4, "case_timeout": 600, "slow_ok": True},
+        {"name": "models-B", "mode": "B", "shards": 4, "case_timeout": 600, "slow_ok": True},
     ]
 
 
@@ -217,6 +295,24 @@ def run(job, shard, nshards, seed, tier):
     from vlib.run import Recorder, drive, shard_seed
 
     rec = Recorder()
+    if job["name"].startswith("models"):
+        import json
+        import time
+
+        journal = os.environ.get("VERIF_JOURNAL")
+        for i, case in enumerate(model_cases(tier)):
+            if i % nshards != shard:
+                continue
+            if journal:
+                with open(journal, "w") as jf:
+                    json.dump({"t": time.time(), "case": case}, jf)
+            v = check(case)
+            rec.record(case, v)
+            if not v.ok:
+                rec.failures.append({"case": case, "msg": v.msg})
+        if journal:
+            open(journal, "w").write("{}")
+        return rec.result()
     n = dict(zip(["box-I", "solve-I", "box-B", "solve-B"], EXAMPLES[tier]))[job["name"]]
     strat = heavy_box(tier) if job["name"].startswith("box") else solve_case(tier)
     drive(strat, check, rec, shard_seed(seed, shard, 51 + ["box-I", "solve-I", "box-B", "solve-B"].index(job["name"])), n, shrink_budget_s=60)
